@@ -8,6 +8,7 @@ import (
 	"os"
 	"os/exec"
 	"path/filepath"
+	"strings"
 	"sync"
 	"sync/atomic"
 	"syscall"
@@ -57,6 +58,10 @@ func c08Matrix() []c08Case {
 		c08Case{"sshd-path-regular-file", "idle"}, c08Case{"sshd-path-missing", "idle"},
 		c08Case{"audit-path-regular-file", "idle"}, c08Case{"audit-path-missing", "idle"},
 		c08Case{"audit-path-regular-file", "load"}) // "load" here: the sshd pipe has a live writer
+	// the events sink breaks AFTER the login was recorded: only the audit side's writes fail.
+	// single: one failing event; batch: an incomplete compound event holds back three complete ones,
+	// its terminator releases all four inside one PushMessage; stream: 40 failing events in a row
+	cs = append(cs, c08Case{"audit-write-error", "single"}, c08Case{"audit-write-error", "batch"}, c08Case{"audit-write-error", "stream"})
 	return cs
 }
 
@@ -136,12 +141,31 @@ func runC08Scenario(bin, dir, cause, variant string, rep int) (r result) {
 		auditKind = "missing"
 	case "write-error":
 		outPath = "/dev/full" // opens fine, every write fails with ENOSPC
+	case "audit-write-error":
+		outPath = filepath.Join(dir, "events-pipe") // a FIFO whose reader goes away: EPIPE
 	}
 	if err := errors.Join(mk(sshdPath, sshdKind), mk(auditPath, auditKind)); err != nil {
 		r.HarnessErr = "set-up: " + err.Error()
 		return
 	}
-	if outPath != "/dev/full" {
+	var eventsR *os.File
+	if cause == "audit-write-error" {
+		if err := syscall.Mkfifo(outPath, 0o600); err != nil {
+			r.HarnessErr = "set-up: " + err.Error()
+			return
+		}
+		rf, err := os.OpenFile(outPath, os.O_RDONLY|syscall.O_NONBLOCK, 0)
+		if err != nil {
+			r.HarnessErr = "set-up: " + err.Error()
+			return
+		}
+		eventsR = rf
+		defer func() {
+			if eventsR != nil {
+				eventsR.Close()
+			}
+		}()
+	} else if outPath != "/dev/full" {
 		if err := os.WriteFile(outPath, nil, 0o600); err != nil {
 			r.HarnessErr = "set-up: " + err.Error()
 			return
@@ -304,6 +328,60 @@ func runC08Scenario(bin, dir, cause, variant string, rep int) (r result) {
 		case "write-error":
 			if _, err := sshdW.WriteString(sshdLine(rep)); err != nil {
 				r.HarnessErr = "cannot write the sshd line: " + err.Error()
+			}
+		case "audit-write-error":
+			// 1. a login and its LOGIN record, both recorded while the sink still works
+			const pid, ses = 4321, 91
+			waitLines := func(n int) bool {
+				got := 0
+				buf := make([]byte, 64*1024)
+				dl := time.Now().Add(c08Bound)
+				for got < n && time.Now().Before(dl) {
+					_ = eventsR.SetReadDeadline(time.Now().Add(50 * time.Millisecond))
+					k, _ := eventsR.Read(buf)
+					got += strings.Count(string(buf[:k]), "\n")
+					if k == 0 {
+						time.Sleep(5 * time.Millisecond)
+					}
+				}
+				return got >= n
+			}
+			if _, err := fmt.Fprintf(sshdW, "%d Accepted password for alice from 192.0.2.7 port 50022 ssh2\n", pid); err != nil {
+				r.HarnessErr = "cannot write the sshd line: " + err.Error()
+				break
+			}
+			if !waitLines(1) {
+				r.HarnessErr = "the UserLogin event did not arrive on the events pipe | " + tail()
+				break
+			}
+			if _, err := fmt.Fprintf(auditW, "type=LOGIN msg=audit(1690000000.000:1): pid=%d uid=0 old-auid=4294967295 auid=1000 tty=(none) old-ses=4294967295 ses=%d res=1\n", pid, ses); err != nil {
+				r.HarnessErr = "cannot write the LOGIN record: " + err.Error()
+				break
+			}
+			if !waitLines(1) {
+				r.HarnessErr = "the UserAction of the LOGIN record did not arrive on the events pipe | " + tail()
+				break
+			}
+			// 2. the sink breaks
+			eventsR.Close()
+			eventsR = nil
+			injected = time.Now()
+			// 3. further activity of the session: every write of it fails now
+			var recs string
+			switch variant {
+			case "single":
+				recs = fmt.Sprintf(auditLineFmt, 10, ses)
+			case "batch":
+				recs = fmt.Sprintf("type=SYSCALL msg=audit(1690000000.000:10): arch=c000003e syscall=59 success=yes exit=0 a0=1 a1=2 a2=3 a3=8 items=0 ppid=1 pid=5000 auid=1000 uid=1000 gid=1000 euid=1000 suid=1000 fsuid=1000 egid=1000 sgid=1000 fsgid=1000 tty=pts3 ses=%d comm=\"ls\" exe=\"/usr/bin/ls\" key=\"k\"\n", ses) +
+					fmt.Sprintf(auditLineFmt, 11, ses) + fmt.Sprintf(auditLineFmt, 12, ses) + fmt.Sprintf(auditLineFmt, 13, ses) +
+					"type=EOE msg=audit(1690000000.000:10): \n"
+			default: // stream
+				for i := 0; i < 40; i++ {
+					recs += fmt.Sprintf(auditLineFmt, 10+i, ses)
+				}
+			}
+			if _, err := auditW.WriteString(recs); err != nil {
+				r.HarnessErr = "cannot write the audit records: " + err.Error()
 			}
 		case "sigterm":
 			_ = cmd.Process.Signal(syscall.SIGTERM)
